@@ -35,6 +35,10 @@ if ROUND == "r4":
     REBASED = {k: f"/tmp/rebased/{k.replace('-mutant', '-r4-mutant')}/patch.diff" for k in ("C01-mutant-a", "C01-mutant-b", "C11-mutant-b", "C16-mutant-b")}
     EXTRA = json.load(open(os.environ["SEED_EXTRA"])) if os.environ.get("SEED_EXTRA") else {}
 
+if ROUND == "r5":
+    PKG, RACE_DEMO, REBASED = {}, set(), {}
+    EXTRA = json.load(open(os.environ["SEED_EXTRA"])) if os.environ.get("SEED_EXTRA") else {}
+
 def sh(cmd, cwd=None, timeout=1800):
     p = subprocess.run(cmd, shell=True, cwd=cwd, env=ENV, capture_output=True, text=True, timeout=timeout)
     return p.returncode, p.stdout + p.stderr
